@@ -185,7 +185,8 @@ def gen_plan(ch, deep=False):
                 body = json.dumps({'req': k, 'pad': 'x' * ch.draw(20, 'pad')}).encode()
         reqs.append({'route': r, 'path': path, 'method': method, 'tag': 'tag%d' % k, 'ctype': ctype,
                      'accept': ACCEPTS[ch.weighted([4, 2, 2, 1, 1, 1], 'accept')],
-                     'query': 'q=%d&who=r%d' % (k * 7, k), 'body': body.decode() if body else None})
+                     'query': ('q=%d&who=r%d' % (k * 7, k)) if ch.draw(4, 'no_query') != 3 else '',
+                     'body': body.decode() if body else None})
     plan = {'routes': routes, 'n_mw': n_mw, 'reqs': reqs,
             'independent_mw': bool(ch.draw(2, 'independent_mw')),
             'caches_full': bool(ch.draw(3, 'caches_full') == 2)}
@@ -219,6 +220,7 @@ def _observe(req, params, body):
         'path': req.path, 'method': req.method,
         'params': {k: str(v) for k, v in sorted(params.items())},
         'q': req.get_param('q'), 'who': req.get_param('who'),
+        'all_params': sorted((k, str(v)) for k, v in req.params.items()),
         'tag': req.get_header('X-Tag'),
         'ctx': getattr(req.context, 'tag', None), 'ctx2': getattr(req.context, 'tag2', None),
         'body': body, 'uri_template': req.uri_template,
@@ -312,6 +314,8 @@ def build_app(plan, asgi, record, pause=None):
         class MW1(object):
             async def process_request(self, req, resp):
                 req.context.tag = req.get_header('X-Tag')
+                if req.get_header('X-Tag') != 'tag1':
+                    req.params['noted_by_mw'] = req.get_header('X-Tag')    # its own request's params
                 await pause()
 
             async def process_response(self, req, resp, resource, ok):
@@ -332,6 +336,8 @@ def build_app(plan, asgi, record, pause=None):
         class MW1(object):
             def process_request(self, req, resp):
                 req.context.tag = req.get_header('X-Tag')
+                if req.get_header('X-Tag') != 'tag1':
+                    req.params['noted_by_mw'] = req.get_header('X-Tag')
 
             def process_response(self, req, resp, resource, ok):
                 resp.set_header('X-Echo', str(getattr(req.context, 'tag', None)))
@@ -423,7 +429,16 @@ def build_app(plan, asgi, record, pause=None):
                         await pause()
                         respond(self._k, self._i, req, resp, params, json.dumps(m, sort_keys=True))
                     else:
-                        data = await req.stream.read()
+                        if req.get_header('X-Tag') in ('tag1', 'tag2'):
+                            # read in small sized pieces: the pending pieces of two requests overlap
+                            data = b''
+                            while True:
+                                piece = await req.stream.read(5)
+                                if not piece:
+                                    break
+                                data += piece
+                        else:
+                            data = await req.stream.read()
                         await pause()
                         respond(self._k, self._i, req, resp, params, data.decode())
         else:
@@ -710,10 +725,12 @@ def asgi_exchange(ctx, plan, reqs, concurrent, arm_flaky=False):
     # tasks share one thread: a lock of the application that is still held when somebody else asks
     # for it can never be released -- report that instead of hanging the simulator
     _threading.Lock = _TaskLock
+    compiled_mod.Lock = _TaskLock
     try:
         app = build_app(plan, True, record, pause)
     finally:
         _threading.Lock = _REAL_LOCK
+        compiled_mod.Lock = _REAL_LOCK
     if plan.get('caches_full'):
         fill_caches(app)
     Flaky.fail_next = arm_flaky       # armed only after the routes were added (add_route validates converters)
